@@ -345,3 +345,51 @@ def units_of_class(program, cls, with_nested=True):
 
 def fmt_witness(cfg, path):
     return cfg.format_path(path) if path else []
+
+
+def scope_vars(program, unit):
+    """local names that denote scope frames (ChainMaps / their maps) in a unit:
+    the ``scope`` parameter (own or enclosing) and everything derived from it by
+    copy, new_child(), [UP] / [ROOT] / [LAST_CHILD_SCOPE], chain_child(), .maps[k]"""
+    seeds = set()
+    u = unit
+    while u is not None:
+        if 'scope' in u.all_params:
+            seeds.add('scope')
+        u = u.parent
+    out = set(seeds)
+    if not out:
+        return out
+
+    def root_is_scope(e):
+        while True:
+            if isinstance(e, ast.Name):
+                return e.id in out
+            if isinstance(e, ast.Attribute) and e.attr in ('maps', 'parents'):
+                e = e.value
+            elif isinstance(e, ast.Subscript):
+                k = program.scope_key(unit, e.slice)
+                if isinstance(e.value, ast.Attribute) and e.value.attr == 'maps':
+                    e = e.value
+                elif k in ('core.UP', 'core.ROOT', 'core.LAST_CHILD_SCOPE'):
+                    e = e.value
+                else:
+                    return False
+            elif isinstance(e, ast.Call):
+                if isinstance(e.func, ast.Attribute) and e.func.attr == 'new_child':
+                    e = e.func.value
+                elif isinstance(e.func, ast.Name) and e.func.id == 'chain_child' and e.args:
+                    e = e.args[0]
+                else:
+                    return False
+            else:
+                return False
+    changed = True
+    while changed:
+        changed = False
+        for n in unit.own_nodes():
+            if isinstance(n, ast.Assign) and len(n.targets) == 1 and isinstance(n.targets[0], ast.Name):
+                if n.targets[0].id not in out and root_is_scope(n.value):
+                    out.add(n.targets[0].id)
+                    changed = True
+    return out
